@@ -51,6 +51,8 @@ pub use key_override::*;
 
 mod custom_tap_hold;
 use custom_tap_hold::*;
+#[cfg(kanata_verif)]
+pub use custom_tap_hold::verif as verif_tap_hold;
 
 pub mod layer_opts;
 use layer_opts::*;
